@@ -821,3 +821,11 @@ Qed.
 (* n consecutive members of one scalar type *)
 Definition run_ti (g sz : Z) (n : nat) : tinfo :=
   mktinfo (map (fun i => (mkleaf g sz [], Z.of_nat i * sz)) (seq 0 n)) (Z.of_nat n * sz) 0.
+
+Lemma run_ti_wf : forall g sz n, In g [72; 73; 85; 82; 67] -> 0 < sz -> (g = 72 -> sz = 1) ->
+  (g = 82 \/ g = 67 -> 4 <= sz) -> flat_wf (ti_fields (run_ti g sz n)).
+Proof.
+  intros g sz n Hg Hs H1 H2. unfold run_ti. cbn [ti_fields]. apply Forall_forall. intros [l o] H.
+  apply in_map_iff in H. destruct H as (i & E & _). injection E as <- <-.
+  unfold leaf_wf. cbn [fst l_group l_size l_arr]. repeat split; auto.
+Qed.
